@@ -32,6 +32,7 @@ fn limits(tier: Tier) -> Limits {
 fn is_big(h: &History) -> bool {
     h.ops.iter().any(|o| match o {
         Op::ResizeTo(t, _) => *t > 2600,
+        Op::Reserve(k) => *k > 4096,
         Op::Append(x) | Op::Prepend(x) | Op::Insert(_, x) => x.bits.len() > 2600,
         Op::Extend(b, _) => b.len() > 2600,
         _ => false,
@@ -39,7 +40,7 @@ fn is_big(h: &History) -> bool {
 }
 
 fn limits_for(h: &History, long_at: usize) -> Limits {
-    let big = is_big(h);
+    let big = is_big(h) || matches!(h.init, Init::WithCapacity(c) if c > 2600);
     if big {
         Limits { lcap: 140_000, gmax: 400 }
     } else {
@@ -150,7 +151,7 @@ fn arb_history(mode: Mode, tier: Tier) -> BoxedStrategy<History> {
         Mode::Capacity => tier.pick(14, 40),
     };
     let tid = match mode {
-        Mode::Capacity => prop_oneof![2 => (0usize..17).prop_map(|i| FIXED_TIDS[i]), 5 => Just(TID_D), 6 => Just(TID_A)].boxed(),
+        Mode::Capacity => prop_oneof![2 => (0usize..18).prop_map(|i| FIXED_TIDS[i]), 5 => Just(TID_D), 6 => Just(TID_A)].boxed(),
         _ => arb_tid().boxed(),
     };
     (tid, arb_init(), vec(arb_op(mode, tier), 1..maxops)).prop_map(|(ty, init, ops)| History { ty, init, ops }).boxed()
@@ -383,7 +384,7 @@ impl Property for C07 {
         arb_history(Mode::Edits, tier)
     }
     fn exhaustive_subspaces(&self, _tier: Tier) -> Vec<String> {
-        vec!["unbounded growth: Bvd and Bv grown from {0,1,64,127,128,129,200} to {4095,4096,4097,65539} bits by resize(0|1)/append/prepend/insert/extend, then push/set/pop/resize/sign_extend/truncate back down".into(), "append / prepend / insert-at-{0,mid,len} of every operand length 0..=min(room,70) of 4 operand types onto every subject length 0..=min(C,140) for all 19 subject types (single-step histories)".into()]
+        vec!["unbounded growth: Bvd and Bv grown from {0,1,64,127,128,129,200} to {4095,4096,4097,65539} bits by resize(0|1)/append/prepend/insert/extend, then push/set/pop/resize/sign_extend/truncate back down".into(), "append / prepend / insert-at-{0,mid,len} of every operand length 0..=min(room,70) of 4 operand types onto every subject length 0..=min(C,140) for all 20 subject types (single-step histories)".into()]
     }
     fn enumerate(&self, _tier: Tier, sh: &mut Shard, f: &mut dyn FnMut(History) -> bool) {
         for ty in 0..NT {
@@ -456,7 +457,7 @@ impl Property for C18 {
         arb_history(Mode::Capacity, tier)
     }
     fn exhaustive_subspaces(&self, _tier: Tier) -> Vec<String> {
-        vec!["with_capacity(c) for every c<=600, and reserve(k) for k in a 20-value lattice at every length <=300 followed by each of 6 arithmetic/logic operations with a longer operand, then shrink_to_fit, on Bvd and Bv".into()]
+        vec!["with_capacity(c) for c in {4096, 4100, 2^16, 2^20, 2^23-1, 2^23, 2^23+1, 2^24, 2^26+7}; reserve(k) for 12 values of k on vectors filled to 3000/c-1/c bits of a 4096/4100/8192-bit allocation, followed by growth to len+k, a second reserve, growth, shrink_to_fit".into(), "with_capacity(c) for every c<=600, and reserve(k) for k in a 20-value lattice at every length <=300 followed by each of 6 arithmetic/logic operations with a longer operand, then shrink_to_fit, on Bvd and Bv".into()]
     }
     fn enumerate(&self, _tier: Tier, sh: &mut Shard, f: &mut dyn FnMut(History) -> bool) {
         for ty in [TID_D, TID_A] {
@@ -466,6 +467,30 @@ impl Property for C18 {
                 }
                 if !f(History { ty, init: Init::WithCapacity(c), ops: vec![Op::Push(true), Op::Grow(40000, true), Op::ShrinkToFit] }) {
                     return;
+                }
+            }
+            // large allocations: with_capacity far beyond the routine range, and reserve on a vector
+            // whose allocation is already thousands of bits (growth-policy code paths)
+            for c in [4096usize, 4100, 65_536, 1 << 20, (1 << 23) - 1, 1 << 23, (1 << 23) + 1, 1 << 24, (1 << 26) + 7] {
+                if !sh.mine() {
+                    continue;
+                }
+                if !f(History { ty, init: Init::WithCapacity(c), ops: vec![Op::Push(true), Op::Grow(65535, true), Op::ShrinkToFit] }) {
+                    return;
+                }
+            }
+            for c0 in [4096usize, 4100, 8192] {
+                for fill in [c0 - 1, c0, 3000] {
+                    if !sh.mine() {
+                        continue;
+                    }
+                    for k in [1u16, 63, 64, 65, 511, 512, 513, 1000, 1001, 2047, 5000, 9999] {
+                        let target = fill + k as usize;
+                        let ops = vec![Op::ResizeTo(fill, true), Op::Reserve(k), Op::ResizeTo(target, false), Op::Push(true), Op::Reserve(k), Op::ResizeTo(target + 1 + k as usize, true), Op::ShrinkToFit, Op::ResizeTo(100, false), Op::ShrinkToFit];
+                        if !f(History { ty, init: Init::WithCapacity(c0), ops }) {
+                            return;
+                        }
+                    }
                 }
             }
             for n in 0..=300usize {
